@@ -978,8 +978,7 @@ def _advance_head_front(state: State, heads: List[FlowHead]) -> List[FlowHead]:
             # We only advance merging heads if all internal events were processed
             actionable_heads.append(head)
             continue
-        elif head.status == FlowHeadStatus.ACTIVE:
-            head.position += 1
+        advance_position = head.status == FlowHeadStatus.ACTIVE
 
         if flow_state.status == FlowStatus.WAITING:
             flow_state.status = FlowStatus.STARTING
@@ -988,6 +987,11 @@ def _advance_head_front(state: State, heads: List[FlowHead]) -> List[FlowHead]:
         flow_aborted = False
         flow_never_waited = flow_state.status == FlowStatus.STARTING
         try:
+            if advance_position:
+                # Moving the head registers it for the event matching, which evaluates the event
+                # name of a match statement and can fail (e.g. `match $undefined.Finished()`)
+                head.position += 1
+
             new_heads = slide(state, flow_state, flow_config, head)
 
             # Advance all new heads created by a head fork
